@@ -216,7 +216,9 @@ var _ = pr.AutoF
 
 // Automatic table layout (css-tables-3 §3.9): whatever the distribution of widths over the
 // columns, the used width of the table is never smaller than the minimum content width of
-// the table (CSS 2.1 §17.5.2.2: max(W, CAPMIN, MIN)).
+// the table (CSS 2.1 §17.5.2.2: max(W, CAPMIN, MIN)). When the excess width cannot be distributed by the rules,
+// the columns that have cells share it equally: each of the len(columns) receivers gets excessWidth/len(columns),
+// so that the columns still fill the table's used width.
 //@ func autoTableLayout
 //@   props C13
 //@   requires context != nil && box_ != nil
@@ -230,6 +232,7 @@ var _ = pr.AutoF
 //@   loop 6 invariant table.Width.V() >= tmp.tableMinContentWidth
 //@   loop 7 invariant table.Width.V() >= tmp.tableMinContentWidth
 //@   loop 8 invariant table.Width.V() >= tmp.tableMinContentWidth
+//@   loop 8 step[equal-shares] (table.ColumnWidths[columns[rangeindex]] - old(table.ColumnWidths[columns[rangeindex+1]])) * real(len(columns)) == excessWidth
 
 // css-page-3 §5.3 "using named pages": a page break is forced between two siblings when the page
 // name the first one ENDS on differs from the page name the second one STARTS on; the next page
@@ -251,6 +254,16 @@ var _ = pr.AutoF
 //@   modifies anything
 //@   let wins = value == "left" || value == "right" || value == "recto" || value == "verso" || ((value == "page" || value == "column") && (old(result) == "auto" || old(result) == "avoid" || old(result) == "avoid-page" || old(result) == "avoid-column")) || ((value == "avoid" || value == "avoid-page" || value == "avoid-column") && old(result) == "auto")
 //@   loop 3 step[strongest] result == ite(wins, value, old(result))
+
+// The sub-trees aligned to the top or the bottom of the line (and the floats) are collected while the line is
+// measured, and measuring one of them can collect more (a top-aligned box inside a bottom-aligned one): when
+// the measuring loop is left every collected sub-tree has been measured, so that each one counts towards the
+// height of the line and is moved into it.
+//@ func lineBoxVerticality
+//@   props C11
+//@   modifies anything
+//@   loop 1 invariant i == len(subtreesWithMinMax)
+//@   loop 1 exit[all-subtrees-measured] len(subtreesWithMinMax) >= len(topBottomSubtrees)
 
 // C11: a line box is as tall as its contents. maxY / minY are running extrema over the in-flow
 // children (and, recursively, over the contents of nested inline boxes): every assignment
